@@ -362,7 +362,7 @@ class Interp(object):
                 r = a is b
             elif isinstance(a, ClassRef) and isinstance(b, ClassRef):
                 r = a == b
-            elif a is None or b is None or isinstance(a, bool) or isinstance(b, bool):
+            elif a is None or b is None or isinstance(a, bool) or isinstance(b, bool) or isinstance(a, type) or isinstance(b, type):
                 r = a is b
             elif type(a) is not type(b):
                 r = False
@@ -447,6 +447,20 @@ class Interp(object):
         except Exception as ex:
             raise _Raise(type(ex).__name__)
 
+    def ev_Yield(self, e, env):
+        v = self.ev(e.value, env) if e.value is not None else None
+        if '__yields__' not in env:
+            raise _Abort('yield outside an interpreted generator')
+        env['__yields__'].append(v)
+        return None
+
+    def ev_YieldFrom(self, e, env):
+        v = self.ev(e.value, env)
+        if '__yields__' not in env or v is TOP:
+            raise _Abort('yield from unknown')
+        env['__yields__'].extend(self.iterate(v))
+        return None
+
     def ev_Lambda(self, e, env):
         return Closure(e, dict(env), self)
 
@@ -481,6 +495,8 @@ class Interp(object):
     def iterate(self, it):
         if isinstance(it, dict):
             return list(it.keys())
+        if isinstance(it, (type({}.values()), type({}.keys()), type({}.items()))):
+            return list(it)
         if isinstance(it, (list, tuple, set, str, bytes)):
             return list(it)
         if isinstance(it, range):
@@ -530,6 +546,9 @@ class Interp(object):
         h = self.hooks.get(ftext)
         if h is None and isinstance(e.func, ast.Attribute):
             h = self.hooks.get('.' + e.func.attr)
+            if h is not None:
+                # the receiver expression is evaluated (exactly once) before an attribute-name hook runs
+                self.last_recv = self.ev(e.func.value, env)
         if h is not None:
             r = h(self, e, args, kwargs, env)
             if r is not NotImplemented:
@@ -638,11 +657,14 @@ class Interp(object):
         try:
             if isinstance(node, ast.Lambda):
                 return self.ev(node.body, env)
+            is_gen = _is_generator(node)
+            if is_gen:
+                env['__yields__'] = []
             try:
                 self.block(node.body, env)
             except _Return as r:
-                return r.value
-            return None
+                return env['__yields__'] if is_gen else r.value
+            return env['__yields__'] if is_gen else None
         finally:
             self.depth -= 1
 
@@ -896,6 +918,15 @@ class Interp(object):
             pass
         else:
             raise _Abort('statement ' + type(s).__name__)
+
+
+def _is_generator(fnode, _cache={}):
+    r = _cache.get(id(fnode))
+    if r is None:
+        from .model import walk_own
+        r = any(isinstance(n, (ast.Yield, ast.YieldFrom)) for n in walk_own(fnode))
+        _cache[id(fnode)] = r
+    return r
 
 
 def _load(t):
